@@ -1,5 +1,6 @@
 import LiquidVerif.Lemmas.Lex
 import LiquidVerif.Lemmas.LexLiquid
+import LiquidVerif.Lemmas.LexScan
 /-!
 # C10 — literal text, raw blocks, comments and whitespace control
 
@@ -244,6 +245,39 @@ theorem liquid_inner_tokens_in_source (d : Delims) (pre post : List Piece) (l r 
   rw [hs] at this
   exact LiquidVerif.SpanLex.located_slice this
 
+/-! ## the string level: a hand scanner in place of "the regex finds the pieces" (deepening round)
+
+`scan d src` (Model/LexScan.lean) is a deterministic scanner over the source *string* that resolves the alternation
+`RAW | DOC | COMMENT | OUTPUT | TAG | CONTENT` the way the backtracking engine does; stream `scan` compares it with
+the real `finditer` on arbitrary strings. -/
+
+/-- **The scanner on text.** At a well-formed text piece (no opening delimiter begins inside it or across its right
+edge) followed by nothing or by markup whose opener shows the hyphen `la`, the scanner finds no markup match and
+its content rule matches exactly the text with look-ahead `la` — for every delimiter set. -/
+theorem scan_text (d : Delims) (pos : Nat) (c : Char) (s rest : Str) (la : Bool)
+    (hwf : allSuffixes (fun t => !startsMarkup d t) (c :: s) rest = true)
+    (hrest : rest = [] ∧ la = false ∨ rest ≠ [] ∧ openerAt? d rest = some la) :
+    matchAt d pos c (s ++ rest) = pieceMatch d pos la (.text (c :: s)) :=
+  matchAt_text d pos c s rest la hwf hrest
+
+/-- **String level, reduced to single markup pieces** (`_partial`: the hypothesis `AllMarkupFound` — each markup
+piece, taken alone at the head of what follows it, is found by the scanner — is not yet discharged from `srcWf`;
+the driver evaluates the conclusion on every generated case). For a well-formed piece list, scanning the assembled
+string yields exactly `matchesOf`: all text pieces, all offsets and the tiling of the string are proved here. -/
+theorem scan_assemble_partial (d : Delims) (ps : List Piece) (hwf : srcWf d ps = true) (hm : AllMarkupFound d ps) :
+    scan d (assemble d ps) = matchesOf d 0 ps :=
+  scan_assemble d ps 0 hwf hm
+
+/-- **End to end from the string** (same residual hypothesis): scanning, tokenizing and parsing the source string
+of any well-formed item list gives the specified nodes. -/
+theorem string_level_refines_spec_partial (d : Delims) (items : List Item) (hok : allOk items = true)
+    (hwf : srcWf d (flatten items) = true) (hm : AllMarkupFound d (flatten items)) :
+    nodesOfString d (assemble d (flatten items)) = .ok (specNodes d false items) := by
+  have h := lex_refines_spec d items false hok
+  simp only [nodesFrom] at h
+  simp only [nodesOfString, scan_assemble_partial d _ hwf hm]
+  exact h
+
 /-! ## non-vacuity: the hypotheses are met by concrete templates, including the two inputs that failed
 before the `fix:` commits -/
 
@@ -278,5 +312,13 @@ example :
 /-- `strip_between` is applicable: a doc block with a hyphen on `enddoc`, whitespace-only text, an output with `{{-` -/
 example : allOk (([] ++ [.piece (.doc ⟨false, false, [], []⟩ ['d'] ⟨false, true, [], []⟩)]) ++
       .piece (.text [' ', '\n']) :: .piece (.output true false [] ['1'] []) :: []) = true := by decide
+
+/-- `a {{- x }}`: the residual hypothesis of `scan_assemble_partial` is satisfiable — the output piece is found by
+the scanner at every position — and the theorem then gives the string-level matches. -/
+example : AllMarkupFound Delims.default [.text ['a', ' '], .output true false [' '] ['x'] [' ']] := by
+  refine ⟨fun h => by simp [Piece.isText] at h,
+    ⟨fun _ => ⟨by decide, fun pos la => ⟨'{', _, rfl, ?_⟩, by decide⟩, trivial⟩⟩
+  simp [matchAt, blockAt?, kwTagAt?, stripPrefix?, Delims.default, optHyphen, skipSpaces, isSpace, findFirst, closeAt?,
+    pieceMatch, Piece.src, hy]
 
 end LiquidVerif.C10
